@@ -51,8 +51,11 @@ MkInput(ptr, recv, n, bad, ret, addr, second, single, ek, eaddr) ==
                ELSE <<ExtVal("gv", "pub", EvalTy(ek), eaddr)>>
       (* an opaque singleton: a type without storage *)
       Eng == [TypeDef("Eng", "pub", <<>>) EXCEPT !.singleton = 262144]
+      (* a module that holds nothing but extern values, of types it imports *)
+      globals == [Module(<<"g">>, <<<<"m">>>>, <<>>)
+                    EXCEPT !.evals = <<ExtVal("root", "pub", TMPtr(TNm("T")), 589824), ExtVal("counts", "priv", TArr(TNm("u32"), 4), 589888)>>]
   IN [ptr |-> ptr,
-      mods |-> <<[Module(<<"m">>, <<>>, (IF single = "opaque" THEN <<Eng>> ELSE <<>>) \o (IF useBase THEN <<B>> ELSE <<>>) \o <<T, E>>)
+      mods |-> (IF ek \in {"scalar", "ptr"} THEN <<globals>> ELSE <<>>) \o <<[Module(<<"m">>, <<>>, (IF single = "opaque" THEN <<Eng>> ELSE <<>>) \o (IF useBase THEN <<B>> ELSE <<>>) \o <<T, E>>)
                     EXCEPT !.impls = impls, !.evals = evals]>>]
 
 MCInit ==
@@ -69,7 +72,9 @@ MCSpec == MCInit /\ [][Next]_vars /\ WF_vars(Next)
 
 (* ------------------------------ the oracle ----------------------------- *)
 Crate == [ptr |-> input.ptr, files |-> out, exts |-> ExtMap(input), real |-> <<>>]
-M == input.mods[1]
+M == input.mods[Len(input.mods)]     \* the module `m` is the last one
+G == input.mods[1]
+HasGlobals == Len(input.mods) = 2
 
 ImplFuncsAll == LET i == FirstIdx(M.impls, LAMBDA b : b.name = "T") IN M.impls[i].funcs
 
@@ -106,6 +111,9 @@ P_C15(crate) ==
   IN /\ t.singleton = M.defs[Len(M.defs) - 1].singleton
      /\ e.singleton = M.defs[Len(M.defs)].singleton
      /\ (\E i \in DOMAIN M.defs : M.defs[i].name = "Eng") => CrateItemAt(crate, <<"m", "Eng">>).singleton = 262144
+     /\ (HasGlobals => \E g \in crate.files : g.path = <<"g">> /\ Len(g.evals) = Len(G.evals)
+                                                  /\ \A i \in DOMAIN G.evals : g.evals[i].name = G.evals[i].name /\ g.evals[i].addr = G.evals[i].addr
+                                                                                /\ g.evals[i].ty = DTy(input, G, G.evals[i].ty))
      /\ Len(file.evals) = Len(M.evals)
      /\ \A i \in DOMAIN M.evals :
           /\ file.evals[i].name = M.evals[i].name /\ file.evals[i].addr = M.evals[i].addr
@@ -133,6 +141,8 @@ ReplayRecord ==
                funcs |-> [i \in DOMAIN ImplFuncsAll |-> FnOracle(ImplFuncsAll[i])],
                evals |-> [i \in DOMAIN M.evals |-> [name |-> M.evals[i].name, addr |-> M.evals[i].addr, vis |-> M.evals[i].vis,
                                                      ty |-> DTy(input, M, M.evals[i].ty)]],
+               gevals |-> IF HasGlobals THEN [i \in DOMAIN G.evals |-> [name |-> G.evals[i].name, addr |-> G.evals[i].addr, vis |-> G.evals[i].vis,
+                                                                        ty |-> DTy(input, G, G.evals[i].ty)]] ELSE <<>>,
                tsingle |-> M.defs[Len(M.defs) - 1].singleton, esingle |-> M.defs[Len(M.defs)].singleton,
                osingle |-> IF \E i \in DOMAIN M.defs : M.defs[i].name = "Eng" THEN 262144 ELSE None,
                kf |-> <<>>],
